@@ -444,6 +444,9 @@ spif_bool_t
 spif_ustr_clear(spif_ustr_t self, spif_char_t c)
 {
     ASSERT_RVAL(!SPIF_USTR_ISNULL(self), FALSE);
+    if (self->s == (spif_charptr_t) NULL) {
+        return TRUE;
+    }
     memset(self->s, c, self->size);
     self->s[self->len] = 0;
     return TRUE;
@@ -475,7 +478,7 @@ spif_ustr_downcase(spif_ustr_t self)
     spif_charptr_t tmp;
 
     ASSERT_RVAL(!SPIF_USTR_ISNULL(self), FALSE);
-    for (tmp = self->s; *tmp; tmp++) {
+    for (tmp = self->s; tmp && *tmp; tmp++) {
         *tmp = tolower(*tmp);
     }
     return TRUE;
@@ -852,7 +855,7 @@ spif_ustr_upcase(spif_ustr_t self)
     spif_charptr_t tmp;
 
     ASSERT_RVAL(!SPIF_USTR_ISNULL(self), FALSE);
-    for (tmp = self->s; *tmp; tmp++) {
+    for (tmp = self->s; tmp && *tmp; tmp++) {
         *tmp = toupper(*tmp);
     }
     return TRUE;
